@@ -655,6 +655,9 @@ func BuildRequest(w *World, t *Task, m *MsgSpec) (*http.Request, *Sent, error) {
 			w.probe("delivery_aimed_at_" + m.DelayAnchor)
 		}
 	}
+	if delay > 0 && time.Now().Add(time.Duration(delay)).After(simClockLimit) {
+		delay = 0 // the simulated clock stays inside the validity of the fixture certificates (see simClockLimit)
+	}
 	if delay > 0 {
 		infl := w.inflight()
 		for _, x := range infl {
